@@ -529,6 +529,12 @@ func (x *Exec) Obs() {
 	l := x.S.Node(x.Tip).L
 	// pool-full flag: weight of what the pool held before this query
 	full := x.accWeight >= l.CS.MaxBlockWeight()*10*95/100
+	if full {
+		x.Res.Count("obs_pool_full", 1)
+		if x.poolWeight(v1, v2) < x.accWeight {
+			x.Res.Count("obs_evictions", 1)
+		}
+	}
 	valid := true
 	if pos, err := validatePrefixes(l, v1, v2); err != nil {
 		valid = false
@@ -1192,6 +1198,25 @@ func (x *Exec) Rebase(set []int, from, to int, corrupt string) {
 			x.mismatch("audit:c13:rebase:ephemeral-input-rejected", "UpdateV2TransactionSet(%v, %d -> %d) fails with %q although the set is valid at %d and the path is known: sets with an ephemeral input cannot be rebased", set, from, to, detail, from)
 		}
 	}
+	x.Res.Count("rebase_"+r, 1)
+	if from >= 1 && to >= 1 && from <= x.S.NumAbs() && to <= x.S.NumAbs() {
+		pa, pb := x.S.Tree.PathTo(from+x.S.Warm), x.S.Tree.PathTo(to+x.S.Warm)
+		k := 0
+		for k < len(pa) && k < len(pb) && pa[k] == pb[k] {
+			k++
+		}
+		switch d := len(pa) - k + len(pb) - k; {
+		case d > 144 && d <= 150:
+			x.Res.Count("rebase_dist_145_150_"+r, 1)
+		case d >= 138 && d <= 144:
+			x.Res.Count("rebase_dist_138_144_"+r, 1)
+		case d > 150:
+			x.Res.Count("rebase_dist_over_150_"+r, 1)
+		}
+		if k < len(pa) && k < len(pb) {
+			x.Res.Count("rebase_cross_fork", 1)
+		}
+	}
 	x.emit(map[string]any{"op": "Rebase", "set": evset, "from": from, "to": to, "corrupt": corrupt, "r": r, "ids": ids, "eph": ephs,
 		"proofs": proofs, "nopanic": panicked == "", "detail": trunc(detail, 120)})
 	x.note("rebase %v %d->%d %s -> %s %v", set, from, to, corrupt, r, ids)
@@ -1281,7 +1306,22 @@ func (x *Exec) TxSet(name, basis int) {
 			}
 		}
 		// the assembled set must be acceptable as it stands (parents first, proofs at the tip)
-		if len(out) > 0 && out[len(out)-1].ID() == txn.ID() {
+		// (only claimed when the caller's transaction is itself valid on top of the pool: basis = tip,
+		// every input either unspent at the tip or created by a pooled v2 transaction)
+		complete := basis == x.Tip
+		for _, in := range x.S.Tx(name).Ins {
+			if ledgerHas(lt, in) {
+				continue
+			}
+			made := false
+			for _, n := range x.p2 {
+				for _, o := range x.S.Tx(n).Outs {
+					made = made || o == in
+				}
+			}
+			complete = complete && made
+		}
+		if complete && len(out) > 0 && out[len(out)-1].ID() == txn.ID() {
 			ms := consensus.NewMidState(lt.CS)
 			for _, o := range out {
 				if err := consensus.ValidateV2Transaction(ms, o); err != nil {
@@ -1297,6 +1337,9 @@ func (x *Exec) TxSet(name, basis int) {
 	}
 	if r == "err" && basis != x.Tip && len(eph) > 0 && strings.Contains(detail, "references element that does not exist in our chain") {
 		x.mismatch("audit:c13:txset:ephemeral-input-rejected", "V2TransactionSet(basis %d != tip %d, transaction %d with an unconfirmed parent) fails with %q", basis, x.Tip, name, detail)
+	}
+	if r == "err" && basis != x.Tip && len(eph) > 0 && strings.Contains(detail, "parent has invalid Merkle proof") && x.rebaseShouldSucceed([]int{name}, []map[string]any{{"eph": x.S.leaves(eph)}}, basis, x.Tip) {
+		x.mismatch("audit:c13:txset:stale-basis-pooled-parents-rejected", "V2TransactionSet(basis %d != tip %d, transaction %d with pooled parents) fails with %q: the caller's transaction is valid at the basis, but the pooled parents (whose proofs are valid at the TIP) are validated and rebased from the basis as well", basis, x.Tip, name, detail)
 	}
 	x.emit(map[string]any{"op": "TxSet", "x": map[string]any{"t": name, "eph": x.S.leaves(eph)}, "basis": basis, "r": r, "ids": ids, "k": k,
 		"proofs": proofs, "nopanic": panicked == "", "detail": trunc(detail, 120)})
